@@ -853,7 +853,7 @@ def regression_cases():
 # ---------------------------------------------------------------------------------------------
 def run(ctx):
     tier = ctx.tier
-    ncases = 110 if tier == "quick" else 3500
+    ncases = 100 if tier == "quick" else 3500
     nchains = 24 if tier == "quick" else 500
     nrouting = 30 if tier == "quick" else 600
     ntight = 16 if tier == "quick" else 300
